@@ -422,7 +422,7 @@ pub proof fn lemma_chain8_m(s: Seq<u8>, ty: BoxType, end: int, c1: int, c2: int,
 
 // ---- stbl
 pub open spec fn stbl_norm(b: StblBox) -> StblBox { StblBox { stsd: stsd_norm(b.stsd), ..b } }
-pub open spec fn stbl_muxed(b: StblBox) -> bool { stbl_wire(b) && (stsd_muxed_avc(b.stsd) || stsd_muxed_aac(b.stsd)) }
+pub open spec fn stbl_muxed(b: StblBox) -> bool { stbl_wire(b) && stsd_muxed_any(b.stsd) }
 pub open spec fn stbl_c(b: StblBox, p: int, k: int) -> int { p + stbl_pre(b, k - 1).len() }
 #[verifier::rlimit(200)]
 pub proof fn lemma_stbl_child_1(d: Seq<u8>, p: int, b: StblBox)
@@ -436,7 +436,7 @@ pub proof fn lemma_stbl_child_1(d: Seq<u8>, p: int, b: StblBox)
     lemma_stsd_starts(x);
     assert(stbl_pre(b, 1) == stbl_pre(b, 0) + stsd_bytes(x));
     lemma_child_placed(d, p, all, stbl_pre(b, 0), stsd_bytes(x), stsd_len(x), 0x73747364);
-    lemma_stsd_roundtrip(s, c, x);
+    lemma_stsd_roundtrip_any(s, c, x);
 }
 #[verifier::rlimit(200)]
 pub proof fn lemma_stbl_child_2(d: Seq<u8>, p: int, b: StblBox)
@@ -1355,10 +1355,11 @@ pub proof fn lemma_muxed_file<W: Stream>(m0: Mp4Writer<W>, out: Seq<u8>, moov: M
     lemma_file_roundtrip(x, start, m0.mdat_pos as int, pn, f, moov, moov2);
 }
 
-/// what add_track establishes for a track writer and no later step changes: an AVC or AAC sample description as
-/// Mp4TrackWriter::new builds it (the AAC one up to bufferSizeDB, which write_end sets) and a canonical ISO-639 language code
+/// what add_track establishes for a track writer and no later step changes: a sample description as Mp4TrackWriter::new
+/// builds it for one of the five configurations (the AAC one up to bufferSizeDB, which write_end sets) and a canonical ISO-639 language code
 pub open spec fn tw_static_muxed(w: Mp4TrackWriter) -> bool {
-    &&& stsd_muxed_avc(tw_stbl(w).stsd) || stsd_muxed_aac(stsd_nobuf(tw_stbl(w).stsd))
+    &&& stsd_muxed_avc(tw_stbl(w).stsd) || stsd_muxed_aac(stsd_nobuf(tw_stbl(w).stsd)) || stsd_muxed_hevc(tw_stbl(w).stsd)
+        || stsd_muxed_vp9(tw_stbl(w).stsd) || stsd_muxed_ttxt(tw_stbl(w).stsd)
     &&& w.trak.mdia.mdhd.language@ == lang_string_spec(lang_code_spec(w.trak.mdia.mdhd.language@))
 }
 pub proof fn lemma_trak_muxed_of_track(t: TrakBox, w: Mp4TrackWriter, pos: u64)
@@ -1372,6 +1373,12 @@ pub proof fn lemma_trak_muxed_of_track(t: TrakBox, w: Mp4TrackWriter, pos: u64)
         assert(stsd_nobuf(a).mp4a is Some <==> a.mp4a is Some);
         assert(stsd_nobuf(b0).mp4a is Some <==> b0.mp4a is Some);
         assert(stsd_muxed_avc(a));
+    } else if stsd_muxed_hevc(b0) || stsd_muxed_vp9(b0) || stsd_muxed_ttxt(b0) {
+        assert(stsd_nobuf(a).hev1 == a.hev1 && stsd_nobuf(b0).hev1 == b0.hev1 && stsd_nobuf(a).vp09 == a.vp09 && stsd_nobuf(b0).vp09 == b0.vp09);
+        assert(stsd_nobuf(a).tx3g == a.tx3g && stsd_nobuf(b0).tx3g == b0.tx3g && stsd_nobuf(a).avc1 == a.avc1 && stsd_nobuf(b0).avc1 == b0.avc1);
+        assert(stsd_nobuf(a).mp4a is Some <==> a.mp4a is Some);
+        assert(stsd_nobuf(b0).mp4a is Some <==> b0.mp4a is Some);
+        assert(stsd_muxed_hevc(a) || stsd_muxed_vp9(a) || stsd_muxed_ttxt(a));
     } else {
         let na = stsd_nobuf(a);
         assert(stsd_muxed_aac(na));
@@ -1415,5 +1422,276 @@ pub proof fn lemma_static_of_new(sd: StsdBox)
         if m.esds is Some { assert(esds_nobuf(m.esds->Some_0) == m.esds->Some_0); }
         assert(mp4a_nobuf(m) == m);
         assert(stsd_nobuf(sd) == sd);
+    }
+}
+
+// ---- the remaining sample entries, for the shapes the muxer builds (vp09; hev1 with an empty NAL-unit array list; tx3g)
+pub proof fn lemma_vpcc_starts(b: VpccBox) ensures is_prefix(hdr_bytes(vpcc_len(b) as u64, 0x76706343), vpcc_bytes(b))
+{
+    let h = hdr_bytes(vpcc_len(b) as u64, 0x76706343);
+    assert(is_prefix(h, vpcc_pre_0(b)));
+    assert(is_prefix(vpcc_pre_0(b), vpcc_pre_1(b))); assert(is_prefix(vpcc_pre_1(b), vpcc_pre_2(b))); assert(is_prefix(vpcc_pre_2(b), vpcc_pre_3(b)));
+    assert(is_prefix(vpcc_pre_3(b), vpcc_pre_4(b))); assert(is_prefix(vpcc_pre_4(b), vpcc_pre_5(b))); assert(is_prefix(vpcc_pre_5(b), vpcc_pre_6(b)));
+    assert(is_prefix(vpcc_pre_6(b), vpcc_pre_7(b)));
+    lemma_prefix_trans(h, vpcc_pre_0(b), vpcc_pre_1(b)); lemma_prefix_trans(h, vpcc_pre_1(b), vpcc_pre_2(b)); lemma_prefix_trans(h, vpcc_pre_2(b), vpcc_pre_3(b));
+    lemma_prefix_trans(h, vpcc_pre_3(b), vpcc_pre_4(b)); lemma_prefix_trans(h, vpcc_pre_4(b), vpcc_pre_5(b)); lemma_prefix_trans(h, vpcc_pre_5(b), vpcc_pre_6(b));
+    lemma_prefix_trans(h, vpcc_pre_6(b), vpcc_pre_7(b));
+}
+pub proof fn lemma_vp09_pre_mono(b: Vp09Box, j: int, k: int)
+    requires 0 <= j <= k
+    ensures is_prefix(vp09_pre(b, j), vp09_pre(b, k))
+    decreases k
+{
+    if j < k { lemma_vp09_pre_mono(b, j, k - 1); }
+}
+#[verifier::rlimit(300)]
+pub proof fn lemma_vp09_roundtrip(d: Seq<u8>, p: int, b: Vp09Box)
+    requires 0 <= p, vp09_wire(b)
+    ensures vp09_at(wr(d, p, vp09_bytes(b)), p + 8, b), box_here(wr(d, p, vp09_bytes(b)), p, 0x6a, 0x76703039)
+{
+    broadcast use lemma_be_bytes_len;
+    lemma_vp09_pre(b);
+    lemma_vpcc_pre_len(b.vpcc);
+    let all = vp09_bytes(b); let s = wr(d, p, all);
+    lemma_vp09_pre_mono(b, 0, 16); lemma_vp09_pre_mono(b, 1, 16); lemma_vp09_pre_mono(b, 2, 16); lemma_vp09_pre_mono(b, 3, 16);
+    lemma_vp09_pre_mono(b, 5, 16); lemma_vp09_pre_mono(b, 6, 16); lemma_vp09_pre_mono(b, 7, 16); lemma_vp09_pre_mono(b, 8, 16);
+    lemma_vp09_pre_mono(b, 9, 16); lemma_vp09_pre_mono(b, 10, 16); lemma_vp09_pre_mono(b, 12, 16); lemma_vp09_pre_mono(b, 14, 16);
+    lemma_vp09_pre_mono(b, 15, 16); lemma_vp09_pre_mono(b, 16, 16);
+    reveal_with_fuel(vp09_pre, 18);
+    // header and FullBox
+    lemma_hdr_of_bytes(d, p, all, 0x6a, 0x76703039);
+    let h = vp09_pre(b, 0);
+    assert(vp09_pre(b, 1) =~= (h + seq![b.version]) + be_bytes(b.flags as nat, 3));
+    lemma_rd3(d, p, h + seq![b.version], b.flags as nat, all);
+    lemma_prefix_app(h + seq![b.version], be_bytes(b.flags as nat, 3), all);
+    lemma_rd1s(d, p, h, b.version, all);
+    // 16-bit fields
+    lemma_rd2(d, p, vp09_pre(b, 1), b.start_code as nat, all);
+    lemma_rd2(d, p, vp09_pre(b, 2), b.data_reference_index as nat, all);
+    lemma_rd2(d, p, vp09_pre(b, 4), b.width as nat, all);
+    lemma_rd2(d, p, vp09_pre(b, 5), b.height as nat, all);
+    lemma_rd2(d, p, vp09_pre(b, 6), b.horizresolution.0 as nat, all);
+    lemma_rd2(d, p, vp09_pre(b, 7), b.horizresolution.1 as nat, all);
+    lemma_rd2(d, p, vp09_pre(b, 8), b.vertresolution.0 as nat, all);
+    lemma_rd2(d, p, vp09_pre(b, 9), b.vertresolution.1 as nat, all);
+    lemma_rd2(d, p, vp09_pre(b, 11), b.frame_count as nat, all);
+    lemma_rd2(d, p, vp09_pre(b, 13), b.depth as nat, all);
+    lemma_rd2(d, p, vp09_pre(b, 14), b.end_code as nat, all);
+    // the configuration box is the last piece
+    lemma_vpcc_starts(b.vpcc);
+    lemma_child_placed(d, p, all, vp09_pre(b, 15), vpcc_bytes(b.vpcc), vpcc_len(b.vpcc), 0x76706343);
+    lemma_vpcc_roundtrip(s, p + 86, b.vpcc);
+    lemma_box_here(s, p + 86, vpcc_len(b.vpcc), 0x76706343);
+}
+
+pub proof fn lemma_tx3gh_pre_mono(b: Tx3gBox, j: int, k: int)
+    requires 0 <= j <= k
+    ensures is_prefix(tx3gh_pre(b, j), tx3gh_pre(b, k))
+    decreases k
+{
+    if j < k { lemma_tx3gh_pre_mono(b, j, k - 1); }
+}
+#[verifier::rlimit(300)]
+pub proof fn lemma_tx3g_roundtrip(d: Seq<u8>, p: int, b: Tx3gBox)
+    requires 0 <= p
+    ensures tx3g_at(wr(d, p, tx3g_bytes(b)), p + 8, b), box_here(wr(d, p, tx3g_bytes(b)), p, 46, 0x74783367)
+{
+    broadcast use lemma_be_bytes_len;
+    lemma_tx3gh_pre(b);
+    lemma_tx3g_bytes_len(b);
+    let hb = tx3gh_bytes(b); let v = b.box_record@; let st = b.style_record@;
+    let all = tx3g_bytes(b); let s = wr(d, p, all);
+    reveal_with_fuel(tx3gh_pre, 12);
+    reveal_with_fuel(i16s_bytes, 5);
+    assert(all == hb + i16s_bytes(v, 4) + st);
+    lemma_prefix_concat(hb + i16s_bytes(v, 4), st);
+    lemma_prefix_concat(hb, i16s_bytes(v, 4));
+    lemma_prefix_trans(hb, hb + i16s_bytes(v, 4), all);
+    lemma_tx3gh_pre_mono(b, 0, 10); lemma_tx3gh_pre_mono(b, 3, 10); lemma_tx3gh_pre_mono(b, 4, 10); lemma_tx3gh_pre_mono(b, 5, 10);
+    lemma_tx3gh_pre_mono(b, 6, 10); lemma_tx3gh_pre_mono(b, 7, 10); lemma_tx3gh_pre_mono(b, 8, 10); lemma_tx3gh_pre_mono(b, 9, 10); lemma_tx3gh_pre_mono(b, 10, 10);
+    lemma_prefix_trans(tx3gh_pre(b, 0), hb, all); lemma_prefix_trans(tx3gh_pre(b, 3), hb, all); lemma_prefix_trans(tx3gh_pre(b, 4), hb, all);
+    lemma_prefix_trans(tx3gh_pre(b, 5), hb, all); lemma_prefix_trans(tx3gh_pre(b, 6), hb, all); lemma_prefix_trans(tx3gh_pre(b, 7), hb, all);
+    lemma_prefix_trans(tx3gh_pre(b, 8), hb, all); lemma_prefix_trans(tx3gh_pre(b, 9), hb, all);
+    lemma_hdr_of_bytes(d, p, all, 46, 0x74783367);
+    lemma_rd2(d, p, tx3gh_pre(b, 2), b.data_reference_index as nat, all);
+    lemma_rd4(d, p, tx3gh_pre(b, 3), b.display_flags as nat, all);
+    lemma_rd1s(d, p, tx3gh_pre(b, 4), b.horizontal_justification as u8, all);
+    lemma_rd1s(d, p, tx3gh_pre(b, 5), b.vertical_justification as u8, all);
+    lemma_rd1s(d, p, tx3gh_pre(b, 6), b.bg_color_rgba.red, all);
+    lemma_rd1s(d, p, tx3gh_pre(b, 7), b.bg_color_rgba.green, all);
+    lemma_rd1s(d, p, tx3gh_pre(b, 8), b.bg_color_rgba.blue, all);
+    lemma_rd1s(d, p, tx3gh_pre(b, 9), b.bg_color_rgba.alpha, all);
+    let hj = b.horizontal_justification; let vj = b.vertical_justification;
+    assert((hj as u8) as i8 == hj && (vj as u8) as i8 == vj) by(bit_vector);
+    // BoxRecord: four signed 16-bit values
+    let r0 = hb; let r1 = r0 + be_bytes((v[0] as u16) as nat, 2); let r2 = r1 + be_bytes((v[1] as u16) as nat, 2); let r3 = r2 + be_bytes((v[2] as u16) as nat, 2);
+    let r4 = r3 + be_bytes((v[3] as u16) as nat, 2);
+    assert(hb + i16s_bytes(v, 4) =~= r4);
+    lemma_prefix_concat(r3, be_bytes((v[3] as u16) as nat, 2)); lemma_prefix_concat(r2, be_bytes((v[2] as u16) as nat, 2)); lemma_prefix_concat(r1, be_bytes((v[1] as u16) as nat, 2));
+    lemma_prefix_trans(r4, hb + i16s_bytes(v, 4), all);
+    lemma_prefix_trans(r3, r4, all); lemma_prefix_trans(r2, r3, all); lemma_prefix_trans(r1, r2, all);
+    lemma_rd2(d, p, r0, (v[0] as u16) as nat, all); lemma_rd2(d, p, r1, (v[1] as u16) as nat, all);
+    lemma_rd2(d, p, r2, (v[2] as u16) as nat, all); lemma_rd2(d, p, r3, (v[3] as u16) as nat, all);
+    let a0 = v[0]; let a1 = v[1]; let a2 = v[2]; let a3 = v[3];
+    assert((a0 as u16) as i16 == a0 && (a1 as u16) as i16 == a1 && (a2 as u16) as i16 == a2 && (a3 as u16) as i16 == a3) by(bit_vector);
+    assert forall|i: int| 0 <= i < 4 implies #[trigger] b.box_record[i] == be16(s, p + 8 + 18 + 2 * i) as i16 by {
+        if i == 0 {} else if i == 1 {} else if i == 2 {} else {}
+    }
+    // StyleRecord: twelve bytes as stored
+    assert forall|i: int| 0 <= i < 12 implies #[trigger] b.style_record[i] == s[p + 8 + 26 + i] by {
+        assert(all[34 + i] == st[i]);
+        lemma_wr_index(d, p, all, 34 + i);
+    }
+}
+
+/// an hvcC record whose fields fit their wire widths and whose NAL-unit array list is empty (what HvcCBox::new builds)
+pub open spec fn hvcc_encodable(b: HvcCBox) -> bool {
+    &&& hvcc_wire(b) && b.arrays@.len() == 0
+    &&& b.general_profile_space <= 3 && b.general_profile_idc <= 31 && b.min_spatial_segmentation_idc <= 0x0fff
+    &&& b.parallelism_type <= 3 && b.chroma_format_idc <= 3 && b.bit_depth_luma_minus8 <= 7 && b.bit_depth_chroma_minus8 <= 7
+    &&& b.constant_frame_rate <= 3 && b.num_temporal_layers <= 7 && b.length_size_minus_one <= 3
+}
+pub proof fn lemma_hvcch_pre_mono(b: HvcCBox, j: int, k: int)
+    requires 0 <= j <= k
+    ensures is_prefix(hvcch_pre(b, j), hvcch_pre(b, k))
+    decreases k
+{
+    if j < k { lemma_hvcch_pre_mono(b, j, k - 1); }
+}
+#[verifier::rlimit(300)]
+pub proof fn lemma_hvcc_roundtrip(d: Seq<u8>, p: int, b: HvcCBox)
+    requires 0 <= p, hvcc_encodable(b)
+    ensures hvcc_head_at(wr(d, p, hvcc_bytes(b)), p + 8, b), hvcc_arrays_at(wr(d, p, hvcc_bytes(b)), p + 8, b),
+            box_here(wr(d, p, hvcc_bytes(b)), p, 31, 0x68766343)
+{
+    broadcast use lemma_be_bytes_len;
+    lemma_hvcch_pre(b);
+    lemma_hvcc_bytes_len(b);
+    reveal_with_fuel(hvcch_pre, 15);
+    let all = hvcc_bytes(b); let s = wr(d, p, all);
+    assert(all =~= hvcch_pre(b, 13));
+    lemma_prefix_refl(all);
+    lemma_hvcch_pre_mono(b, 0, 13); lemma_hvcch_pre_mono(b, 1, 13); lemma_hvcch_pre_mono(b, 2, 13); lemma_hvcch_pre_mono(b, 3, 13);
+    lemma_hvcch_pre_mono(b, 4, 13); lemma_hvcch_pre_mono(b, 5, 13); lemma_hvcch_pre_mono(b, 6, 13); lemma_hvcch_pre_mono(b, 7, 13);
+    lemma_hvcch_pre_mono(b, 8, 13); lemma_hvcch_pre_mono(b, 9, 13); lemma_hvcch_pre_mono(b, 10, 13); lemma_hvcch_pre_mono(b, 11, 13);
+    lemma_hvcch_pre_mono(b, 12, 13);
+    lemma_hdr_of_bytes(d, p, all, 31, 0x68766343);
+    let tf = b.general_tier_flag; let nf = b.temporal_id_nested;
+    let b1 = (((b.general_profile_space & 3) << 6) | ((if tf { 1u8 } else { 0u8 }) << 5) | (b.general_profile_idc & 0x1f)) as u8;
+    let b2 = (((b.constant_frame_rate & 3) << 6) | ((b.num_temporal_layers & 7) << 3) | ((if nf { 1u8 } else { 0u8 }) << 2) | (b.length_size_minus_one & 3)) as u8;
+    lemma_rd1s(d, p, hvcch_pre(b, 0), b.configuration_version, all);
+    lemma_rd1s(d, p, hvcch_pre(b, 1), b1, all);
+    lemma_rd4(d, p, hvcch_pre(b, 2), b.general_profile_compatibility_flags as nat, all);
+    lemma_rd6(d, p, hvcch_pre(b, 3), b.general_constraint_indicator_flag as nat, all);
+    lemma_rd1s(d, p, hvcch_pre(b, 4), b.general_level_idc, all);
+    lemma_rd2(d, p, hvcch_pre(b, 5), (b.min_spatial_segmentation_idc & 0x0fff) as nat, all);
+    lemma_rd1s(d, p, hvcch_pre(b, 6), (b.parallelism_type & 3) as u8, all);
+    lemma_rd1s(d, p, hvcch_pre(b, 7), (b.chroma_format_idc & 3) as u8, all);
+    lemma_rd1s(d, p, hvcch_pre(b, 8), (b.bit_depth_luma_minus8 & 7) as u8, all);
+    lemma_rd1s(d, p, hvcch_pre(b, 9), (b.bit_depth_chroma_minus8 & 7) as u8, all);
+    lemma_rd2(d, p, hvcch_pre(b, 10), b.avg_frame_rate as nat, all);
+    lemma_rd1s(d, p, hvcch_pre(b, 11), b2, all);
+    lemma_rd1s(d, p, hvcch_pre(b, 12), b.arrays@.len() as u8, all);
+    let g = b.general_profile_space; let idc = b.general_profile_idc; let t = if tf { 1u8 } else { 0u8 };
+    assert(((((g & 3) << 6) | (t << 5) | (idc & 0x1f)) as u8) >> 6 == g && (((((g & 3) << 6) | (t << 5) | (idc & 0x1f)) as u8) >> 5) & 1 == t
+           && ((((g & 3) << 6) | (t << 5) | (idc & 0x1f)) as u8) & 0x1f == idc) by(bit_vector) requires g <= 3, idc <= 31, t <= 1;
+    let c = b.constant_frame_rate; let nl = b.num_temporal_layers; let n2 = if nf { 1u8 } else { 0u8 }; let l = b.length_size_minus_one;
+    assert(((((c & 3) << 6) | ((nl & 7) << 3) | (n2 << 2) | (l & 3)) as u8) >> 6 == c && (((((c & 3) << 6) | ((nl & 7) << 3) | (n2 << 2) | (l & 3)) as u8) >> 3) & 7 == nl
+           && (((((c & 3) << 6) | ((nl & 7) << 3) | (n2 << 2) | (l & 3)) as u8) >> 2) & 1 == n2 && ((((c & 3) << 6) | ((nl & 7) << 3) | (n2 << 2) | (l & 3)) as u8) & 3 == l)
+        by(bit_vector) requires c <= 3, nl <= 7, n2 <= 1, l <= 3;
+    let m = b.min_spatial_segmentation_idc; let pt = b.parallelism_type; let cf = b.chroma_format_idc; let bl = b.bit_depth_luma_minus8; let bc = b.bit_depth_chroma_minus8;
+    assert((m & 0x0fff) == m && (m & 0x0fff) & 0x0fff == m) by(bit_vector) requires m <= 0x0fff;
+    assert((pt & 3) & 3 == pt && (cf & 3) & 3 == cf && (bl & 7) & 7 == bl && (bc & 7) & 7 == bc) by(bit_vector) requires pt <= 3, cf <= 3, bl <= 7, bc <= 7;
+}
+
+pub proof fn lemma_hvcc_starts(b: HvcCBox) requires hvcc_wire(b) ensures is_prefix(hdr_bytes(hvcc_len(b) as u64, 0x68766343), hvcc_bytes(b))
+{
+    reveal_with_fuel(hvcch_pre, 15);
+    lemma_hvcch_pre_mono(b, 0, 13);
+    lemma_prefix_concat(hvcch_pre(b, 13), harrs_bytes(b.arrays@, b.arrays@.len() as int));
+    lemma_prefix_trans(hvcch_pre(b, 0), hvcch_pre(b, 13), hvcc_bytes(b));
+}
+pub proof fn lemma_hev1_pre_mono(b: Hev1Box, j: int, k: int)
+    requires 0 <= j <= k
+    ensures is_prefix(hev1_pre(b, j), hev1_pre(b, k))
+    decreases k
+{
+    if j < k { lemma_hev1_pre_mono(b, j, k - 1); }
+}
+#[verifier::rlimit(300)]
+pub proof fn lemma_hev1_roundtrip(d: Seq<u8>, p: int, b: Hev1Box)
+    requires 0 <= p, hev1_wire(b), hvcc_encodable(b.hvcc)
+    ensures hev1_at(wr(d, p, hev1_bytes(b)), p + 8, b), box_here(wr(d, p, hev1_bytes(b)), p, hev1_len(b), 0x68657631)
+{
+    broadcast use lemma_be_bytes_len;
+    lemma_hev1_pre(b);
+    lemma_hvcc_bytes_len(b.hvcc);
+    let all = hev1_bytes(b); let s = wr(d, p, all);
+    reveal_with_fuel(hev1_pre, 18);
+    lemma_hev1_pre_mono(b, 0, 16); lemma_hev1_pre_mono(b, 3, 16); lemma_hev1_pre_mono(b, 7, 16); lemma_hev1_pre_mono(b, 8, 16);
+    lemma_hev1_pre_mono(b, 9, 16); lemma_hev1_pre_mono(b, 10, 16); lemma_hev1_pre_mono(b, 12, 16); lemma_hev1_pre_mono(b, 14, 16); lemma_hev1_pre_mono(b, 16, 16);
+    lemma_hdr_of_bytes(d, p, all, hev1_len(b), 0x68657631);
+    lemma_rd2(d, p, hev1_pre(b, 2), b.data_reference_index as nat, all);
+    lemma_rd2(d, p, hev1_pre(b, 6), b.width as nat, all);
+    lemma_rd2(d, p, hev1_pre(b, 7), b.height as nat, all);
+    lemma_rd4(d, p, hev1_pre(b, 8), b.horizresolution.0.numer as nat, all);
+    lemma_rd4(d, p, hev1_pre(b, 9), b.vertresolution.0.numer as nat, all);
+    lemma_rd2(d, p, hev1_pre(b, 11), b.frame_count as nat, all);
+    lemma_rd2(d, p, hev1_pre(b, 13), b.depth as nat, all);
+    lemma_hvcc_starts(b.hvcc);
+    lemma_child_placed(d, p, all, hev1_pre(b, 15), hvcc_bytes(b.hvcc), hvcc_len(b.hvcc), 0x68766343);
+    lemma_hvcc_roundtrip(s, p + 86, b.hvcc);
+    lemma_box_here(s, p + 86, hvcc_len(b.hvcc), 0x68766343);
+}
+
+// ---- stsd for all five sample entries the muxer builds
+pub open spec fn stsd_muxed_hevc(b: StsdBox) -> bool { b.hev1 is Some && b.avc1 is None && b.vp09 is None && b.mp4a is None && b.tx3g is None && hvcc_encodable(b.hev1->Some_0.hvcc) }
+pub open spec fn stsd_muxed_vp9(b: StsdBox) -> bool { b.vp09 is Some && b.avc1 is None && b.hev1 is None && b.mp4a is None && b.tx3g is None }
+pub open spec fn stsd_muxed_ttxt(b: StsdBox) -> bool { b.tx3g is Some && b.avc1 is None && b.hev1 is None && b.vp09 is None && b.mp4a is None }
+pub open spec fn stsd_muxed_any(b: StsdBox) -> bool { stsd_muxed_avc(b) || stsd_muxed_aac(b) || stsd_muxed_hevc(b) || stsd_muxed_vp9(b) || stsd_muxed_ttxt(b) }
+#[verifier::rlimit(300)]
+pub proof fn lemma_stsd_roundtrip_any(d: Seq<u8>, p: int, b: StsdBox)
+    requires 0 <= p, stsd_wire(b), stsd_muxed_any(b)
+    ensures stsd_at(wr(d, p, stsd_bytes(b)), p + 8, stsd_norm(b)), hdr_at(wr(d, p, stsd_bytes(b)), p, stsd_len(b) as u64, 0x73747364)
+{
+    if stsd_muxed_avc(b) || stsd_muxed_aac(b) {
+        lemma_stsd_roundtrip(d, p, b);
+    } else {
+        broadcast use lemma_be_bytes_len;
+        let all = stsd_bytes(b);
+        let s = wr(d, p, all);
+        let l = be_bytes(stsd_len(b) as nat, 4); let t = be_bytes(0x73747364, 4);
+        let eb = stsd_entry_bytes(b);
+        let pre2 = l + t + seq![b.version];
+        assert(all =~= ((pre2 + be_bytes(b.flags as nat, 3)) + be_bytes(1, 4)) + eb);
+        lemma_prefix_refl(all);
+        lemma_prefix_app((pre2 + be_bytes(b.flags as nat, 3)) + be_bytes(1, 4), eb, all);
+        lemma_prefix_app(pre2 + be_bytes(b.flags as nat, 3), be_bytes(1, 4), all);
+        lemma_rd3(d, p, pre2, b.flags as nat, all);
+        lemma_prefix_app(pre2, be_bytes(b.flags as nat, 3), all);
+        lemma_rd1s(d, p, l + t, b.version, all);
+        lemma_prefix_app(l + t, seq![b.version], all);
+        lemma_rd4(d, p, l, 0x73747364, all);
+        lemma_prefix_app(l, t, all);
+        assert(Seq::<u8>::empty() + l =~= l);
+        lemma_rd4(d, p, Seq::<u8>::empty(), stsd_len(b) as nat, all);
+        assert(stsd_head(b).len() == 16);
+        lemma_wr_wr(d, p, stsd_head(b), eb);
+        let d1 = wr(d, p, stsd_head(b));
+        assert(s == wr(d1, p + 16, eb));
+        assert(stsd_norm(b).hev1 == b.hev1 && stsd_norm(b).vp09 == b.vp09 && stsd_norm(b).tx3g == b.tx3g && stsd_norm(b).mp4a == b.mp4a && stsd_norm(b).avc1 is None);
+        if stsd_muxed_hevc(b) {
+            let x = b.hev1->Some_0;
+            lemma_hev1_roundtrip(d1, p + 16, x);
+            lemma_box_here(s, p + 16, hev1_len(x), 0x68657631);
+        } else if stsd_muxed_vp9(b) {
+            let x = b.vp09->Some_0;
+            lemma_vp09_roundtrip(d1, p + 16, x);
+            lemma_box_here(s, p + 16, 0x6a, 0x76703039);
+        } else {
+            let x = b.tx3g->Some_0;
+            lemma_tx3g_roundtrip(d1, p + 16, x);
+            lemma_box_here(s, p + 16, 46, 0x74783367);
+        }
     }
 }
